@@ -25,7 +25,17 @@ T0 = time.time()
 
 def build_text(gen: Dict[str, Any], invs: Sequence[Dict[str, Any]]) -> str:
     items = X.schema_items(gen["schema"], gen["classdefs"], gen["globals"], {"Subject": [{"expr": c["src"], "desc": c["desc"]} for c in invs]})
+    # An unrelated class declared BEFORE Subject that shares the descriptions of the invariants containing calls
+    # (descriptions need to be unique only within a class): a verdict on an invariant must not depend on what
+    # other classes of the same model say under the same description.
+    twins = [{"expr": "self.n == self.n", "desc": c["desc"]} for c in invs if "(" in c["src"] and has_call(c["e"])]
+    first_class = next(k for k, it in enumerate(items) if it.get("kind") == "class")
+    items.insert(first_class, {"kind": "class", "name": "Twin", "props": [{"name": "n", "type": "int"}], "invs": twins})
     return mm.render({"items": items})
+
+
+def has_call(e: Dict[str, Any]) -> bool:
+    return e["k"] in ("call", "len") or any(has_call(x) for x in e["a"])
 
 
 def bisect(cases: List[Dict[str, Any]], ok: Callable[[List[Dict[str, Any]]], bool], mark: Callable[[Dict[str, Any]], None]) -> List[Dict[str, Any]]:
